@@ -122,7 +122,9 @@ def export_lprogram(fn, desc_tok, static_py):
             if k in bundles: dup[0] = True
             else: bundles.append(k)
     def lit_of(e):
-        q = Fraction(e.as_rational()); return f'(lit Q{q.numerator}/{q.denominator})'
+        q = Fraction(e.as_rational())
+        if q == 0 and str(getattr(e, 'val', '')).startswith('-'): raise Unsupported('literal -0')
+        return f'(lit Q{q.numerator}/{q.denominator})'
     def E(e):
         if isinstance(e, A.Var): return f'(var {e.name})'
         if isinstance(e, A.Round) and isinstance(e.arg, A.RationalVal): return lit_of(e.arg)
